@@ -161,7 +161,10 @@ def _worker(args):
     import signal
     seed, kw, props = args
     rng = random.Random(seed)
-    case = gen.random_case(rng, **kw)
+    if "special" in kw:
+        case = gen.special_case(rng, kw["special"], hermitian=kw.get("hermitian", True), N=kw.get("N", 3), max_params=kw.get("max_params", 2))
+    else:
+        case = gen.random_case(rng, **kw)
     t = time.time()
     old = signal.signal(signal.SIGALRM, _alarm)
     signal.alarm(CASE_TIMEOUT)
@@ -180,7 +183,11 @@ def _worker(args):
 def sweep(ctx, ncases, props, kw, name="o_main", parallel=None):
     """Run `ncases` random cases; returns the oracle result dict."""
     seeds = [ctx.rng.randrange(1 << 30) for _ in range(ncases)]
-    jobs = [(s, kw, props) for s in seeds]
+    if kw.get("special_all"):
+        # the structured families, each one at least once
+        jobs = [(s, dict({x: y for x, y in kw.items() if x != "special_all"}, special=i), props) for i, s in enumerate(seeds)]
+    else:
+        jobs = [(s, kw, props) for s in seeds]
     results = []
     if parallel is None:
         parallel = not ctx.quick
